@@ -644,6 +644,13 @@ reg_entry_is_in_memory(RegisterTable *t, RegisterEntry *e)
 static inline RegisterAccess
 reg_read_entry(RegisterEntry *e, RegisterAtom *buf)
 {
+    if (e->area->read == NULL) {
+        /* An area without a read callback cannot tell what it holds. */
+        RegisterAccess rv = REG_ACCESS_RESULT_INIT;
+        rv.code = REG_ACCESS_FAILURE;
+        rv.address = e->address;
+        return rv;
+    }
     return e->area->read(e->area, buf, e->offset, rds_size[e->type]);
 }
 
@@ -784,10 +791,13 @@ ra_malformed_write(RegisterTable *t, RegisterAddress addr,
             rlen -= end - last;
         }
 
-        /* Fetch the entire memory of where the old entry is stored */
-        rv = reg_read_entry(e, raw);
-        if (rv.code != REG_ACCESS_SUCCESS) {
-            return rv;
+        /* Fetch the memory of where the old entry is stored, unless the
+         * block replaces all of it. */
+        if (rlen < size) {
+            rv = reg_read_entry(e, raw);
+            if (rv.code != REG_ACCESS_SUCCESS) {
+                return rv;
+            }
         }
         memcpy(raw + rs, buf + bs, rlen * sizeof(RegisterAtom));
 
@@ -1166,7 +1176,6 @@ register_get(RegisterTable *t, RegisterHandle idx, RegisterValue *v)
     RegisterAtom raw[REG_SIZEOF_LARGEST_DATUM];
     RegisterAccess rv = REG_ACCESS_RESULT_INIT;
     RegisterEntry *e;
-    RegisterArea *a;
     bool success;
 
     if (BIT_ISSET(t->flags, REG_TF_INITIALISED) == false) {
@@ -1182,8 +1191,7 @@ register_get(RegisterTable *t, RegisterHandle idx, RegisterValue *v)
     }
 
     e = &t->entry[idx];
-    a = e->area;
-    rv = a->read(a, raw, e->offset, rds_size[e->type]);
+    rv = reg_read_entry(e, raw);
     if (rv.code != REG_ACCESS_SUCCESS) {
         return rv;
     }
